@@ -3,6 +3,7 @@
 /repo's history after fix commits were amended: commits are matched by a distinctive subject fragment."""
 import json, subprocess, re
 FRAG = {
+ "F51": "a connection that comes up again must not accept answers",
  "F49": "a block whose id does not follow the id of its previous block",
  "F48": "staking transactions obey the genesis period",
  "F45": "walks over block ids in the routing thread are bounded",
